@@ -123,17 +123,24 @@ example : (closeUpload {} "r" { key := 1, alg := .sha256, expect := none, buf :=
 
 Two requests that address one session hold the same object (`BlobSession` hands it out, the handlers use it without a
 lock of their own), so every call sequence on one object is reachable: a `Cancel` behind a completed `Close`, writes
-after the end, two closes.  Model `Sess` (lean/Sess/Basic.lean), both stores; tie: every call sequence up to a length on
+after the end, two closes.  Model `Sess` (lean/Sess/Basic.lean), both stores, sessions pinned to a digest or not; tie: every call sequence up to a length on
 the real objects of the memory, directory and memory-over-directory stores, outcome of each call and the publication
 at the end compared with `Sess.run` (harness/inpkg/store/upload_harness_test.go, driver `sessdriver`). -/
 
 /-- "on completion the stored blob is the concatenation of the accepted chunks": whatever is called on a session object,
-    in any order and any number of times, everything it has published is exactly the chunks it accepted, in order, and it
-    publishes nothing while the session is open -/
-theorem session_object_publishes_accepted (dir : Bool) (calls : List Sess.Op) :
-    ((Sess.run dir {} calls).1.ended = false → (Sess.run dir {} calls).1.published = []) ∧
-    ∀ p ∈ (Sess.run dir {} calls).1.published, p = (Sess.run dir {} calls).1.written :=
-  Sess.run_inv dir calls {} Sess.inv_init
+    in any order and any number of times (writes, verifications, closes with and without a verification, cancels), pinned
+    to a digest or not, everything it has published is exactly the chunks it accepted, in order; a pinned session publishes
+    nothing but the pinned content; and nothing is published while the session is open -/
+theorem session_object_publishes_accepted (dir : Bool) (pin : Option (List Nat)) (calls : List Sess.Op) :
+    ((Sess.run dir { pin := pin } calls).1.ended = false → (Sess.run dir { pin := pin } calls).1.published = []) ∧
+    ∀ p ∈ (Sess.run dir { pin := pin } calls).1.published,
+      p = (Sess.run dir { pin := pin } calls).1.written ∧ (pin = none ∨ pin = some p) := by
+  have h := Sess.run_inv dir calls { pin := pin } (Sess.inv_init pin)
+  have hp := Sess.run_pin dir calls { pin := pin }
+  refine ⟨h.1, fun p hpm => ?_⟩
+  have := h.2 p hpm
+  rw [hp] at this
+  exact this
 
 /-- "a session … ceases to exist after completion, cancellation …": once a session has ended no call sequence makes the
     object accept another byte or come back to life -/
@@ -141,9 +148,10 @@ theorem session_object_inert_after_end (dir : Bool) (s : Sess.S) (he : s.ended =
     (Sess.run dir s calls).1.ended = true ∧ (Sess.run dir s calls).1.written = s.written :=
   Sess.run_ended dir calls s he
 
-/-- a chunk is refused exactly when the session has ended -/
+/-- a chunk is refused exactly when the session has ended or (directory store) its temporary file is closed - which a
+    failed close of a pinned session leaves behind -/
 theorem session_object_write_refused_iff (dir : Bool) (s : Sess.S) (c : Nat) :
-    (Sess.step dir s (.w c)).2 = .err ↔ s.ended = true :=
+    (Sess.step dir s (.w c)).2 = .err ↔ (s.ended = true ∨ (dir = true ∧ s.fclosed = true)) :=
   Sess.write_refused_iff dir s c
 
 /-- what the object has published is not withdrawn by any later call on it -/
@@ -151,6 +159,8 @@ theorem session_object_keeps_published (dir : Bool) (s : Sess.S) (o : Sess.Op) (
     p ∈ (Sess.step dir s o).1.published :=
   Sess.step_published_mono dir s o p hp
 
--- non-vacuity: a completed session has published its two chunks; a Cancel behind the Close changes nothing
+-- non-vacuity: a completed session has published its two chunks; a Cancel behind the Close changes nothing;
+-- a session pinned to another content publishes nothing whatever is called
 example : (Sess.run false {} [.w 1, .w 2, .close, .cancel, .w 1]).1.published = [[1, 2]] := by decide
+example : (Sess.run true { pin := some [99] } [.w 1, .closeRaw, .close, .cancel, .closeRaw]).1.published = [] := by decide
 end C08
